@@ -91,6 +91,21 @@ def _scalar(v):
 BARE = re.compile(r"^(0|[1-9][0-9]*|true|false|[0-9]+\.[0-9]*[1-9])$")
 
 
+def to_yaml_flow(v):
+    """YAML flow style that is NOT JSON: bare keys, single-quoted strings"""
+    import re as _re
+    if isinstance(v, dict):
+        return "{" + ", ".join("%s: %s" % (k if _re.match(r"^[A-Za-z_$][A-Za-z0-9_$]*$", k) and k not in ("true", "false", "null", "yes", "no", "on", "off", "y", "n") else json.dumps(k, ensure_ascii=False),
+                                          to_yaml_flow(x)) for k, x in v.items()) + "}"
+    if isinstance(v, list):
+        return "[" + ", ".join(to_yaml_flow(x) for x in v) + "]"
+    if isinstance(v, str):
+        if _re.match(r"^[ -~]*$", v) and "\\" not in v:
+            return "'" + v.replace("'", "''") + "'"
+        return json.dumps(v, ensure_ascii=False)
+    return json.dumps(v)
+
+
 def to_yaml(v, indent=0, flow=False, bare_keys=False):
     """bare_keys: keys that read as canonical YAML integers, floats or booleans are written unquoted (non-string mapping keys)"""
     if flow:
